@@ -57,6 +57,8 @@ def gen(rng, tier, mult=1):
         yield c
     for i in range((40 if quick else 1500) * mult):
         yield S.gen_source_freshness(rng)
+    for i in range((60 if quick else 2000) * mult):
+        yield S.gen_interleave(rng)
     for i in range(n_fn):
         yield S.gen_fn(rng, i)
     for i in range(n_crash if quick else 0):
@@ -126,6 +128,12 @@ def model_requests(case, obs):
         if any("unexpected" in s["res"] for s in impl):
             impl = None
         return [{"op": "sqlite_history", "views": case["views"], "steps": case["steps"], "init": [], "impl": impl}]
+    if k == "interleave":
+        if "skipped" in obs:
+            return []
+        # the two sequential orders on the model (no implementation observations: the driver only computes)
+        return [{"op": "sqlite_history", "views": case["views"], "steps": case.get("init", []) + order, "init": [],
+                 "impl": None} for order in ([case["a"], case["b"]], [case["b"], case["a"]])]
     if k == "crash":
         if "skipped" in obs:
             return []
@@ -148,7 +156,29 @@ AUX_OK = {"headers": {"Content-Type": "text/plain; charset=UTF-8"}, "body": b"su
 AUX_NONE = {"headers": None, "body": None}
 
 
+def _judge_interleave(case, obs, resps):
+    kind = "interleave/" + case["a"]["op"] + "+" + case["b"]["op"]
+    if "harness_exception" in obs:
+        return _infra(case, obs["harness_exception"])
+    if "skipped" in obs:
+        return Judgement(case, True, True, None, kind="interleave/skipped", nontrivial=False)
+    if len(resps) != 2 or any("ok" not in r for r in resps):
+        return _infra(case, {"driver": resps})
+    n0 = len(case.get("init", []))
+    seen = [S.norm_res(S.drop_aux(obs["res_a"])), S.norm_res(S.drop_aux(obs["res_b"])), S.norm_dump(obs["dump"])]
+    allowed = []
+    for r, (ia, ib) in zip(resps, ((n0, n0 + 1), (n0 + 1, n0))):
+        m = r["ok"]["model"]
+        allowed.append([S.norm_res(m[ia]["res"]), S.norm_res(m[ib]["res"]), S.norm_dump(m[-1]["dump"])])
+    ok = seen in allowed
+    return Judgement(case, ok, True, None if ok else {"observed": seen, "a_then_b": allowed[0], "b_then_a": allowed[1],
+                                                      "b_ran_before_statement": case["k"], "fired": obs.get("fired")},
+                     kind=kind, nontrivial=bool(obs.get("fired")), failed_clause=None if ok else "interleaved-write")
+
+
 def judge(case, obs, resps):
+    if case.get("kind") == "interleave":
+        return _judge_interleave(case, obs, resps)
     k = case.get("kind", "history")
     if "harness_exception" in obs:
         return _infra(case, obs)
